@@ -1,6 +1,8 @@
 package rules
 
 import (
+	"fmt"
+	"os"
 	"scicheck/internal/core"
 )
 
@@ -44,6 +46,21 @@ func c02(e *Env) {
 	for _, n := range sp.skipStat {
 		res := g.Run(core.Scenario{Start: n, Result: errResult(n, core.ErrAny, true)})
 		if w := res.Reaches(effect); w != nil {
+			// the decision may rest on state built up before this stat (a counter of existing outputs initialised
+			// before the loop): explore from Execute's entry, marking the stat as "returned a nil error at some point"
+			rm := g.Run(core.Scenario{Start: g.Entry, AtEntry: true, Marker: n, MarkerResult: errResult(n, core.ErrAny, true)})
+			w2 := rm.ReachesAfterMarker(effect)
+			if os.Getenv("RULE_DEBUG") == "C02" {
+				fmt.Println("C02 marker run: effect after marker:", w2 != nil, "ret:", rm.ReachesAfterMarker(func(m *core.Node) bool { return m.Kind == core.KRootRet }) != nil)
+				if w2 != nil {
+					fmt.Println("   at", g.Where(w2), nodeDesc(w2))
+				}
+			}
+			if w2 == nil && rm.ReachesAfterMarker(func(m *core.Node) bool { return m.Kind == core.KRootRet }) != nil &&
+				rm.ReachesAvoidingAfterMarker(func(m *core.Node) bool { return m.Kind == core.KRootRet }, a.isDoneSend) == nil {
+				ob2.OK(g.Where(n), "exists ⇒ no acquire/mkdir/exec/write/rename/remove reachable (decided with the history from Execute's entry); Done signalled on every returning path")
+				continue
+			}
 			ob2.Fail(g.Where(n), "although an output exists, "+nodeDesc(w)+" is still reachable at "+g.Where(w))
 			continue
 		}
